@@ -158,7 +158,12 @@ pub fn ast_route_agrees_with(sub: &str, tree: &crate::refast::RefExpr, text: &st
         _ => "hand-built".to_string(),
     };
     let mut rt = jmespath::Runtime::new();
-    rt.register_builtin_functions();
+    // the core language does not depend on what is registered: a tree without calls is
+    // evaluated on a runtime that has no functions at all (half of the time)
+    let has_calls = tree.contains(&|n| matches!(n, crate::refast::RefExpr::Call(..)));
+    if has_calls || c % 2 == 0 {
+        rt.register_builtin_functions();
+    }
     let via_ast = search_ast(&label, ast, &rt, doc_json);
     let via_text = search_text(text, doc_json);
     let same = match (&via_ast, &via_text) {
@@ -167,6 +172,29 @@ pub fn ast_route_agrees_with(sub: &str, tree: &crate::refast::RefExpr, text: &st
         _ => false,
     };
     let offsets_kind = ["all 0", "all equal", "small random", "counting"][mode];
+    // ... and the text compiled by a runtime without any functions
+    if same && !has_calls {
+        let bare = jmespath::Runtime::new();
+        let via_bare = match catch(std::panic::AssertUnwindSafe(|| bare.compile(text).map(|e| e.search(Variable::from_json(doc_json).unwrap())))) {
+            Err(p) => ImpOut::Panic(p),
+            Ok(Err(e)) => ImpOut::CompileErr(classify(&e)),
+            Ok(Ok(Ok(v))) => ImpOut::Ok(var_to_j(&v)),
+            Ok(Ok(Err(e))) => ImpOut::SearchErr(classify(&e)),
+        };
+        let same_bare = match (&via_bare, &via_text) {
+            (ImpOut::Ok(a), ImpOut::Ok(b)) => a.exact_eq(b),
+            (ImpOut::SearchErr(a), ImpOut::SearchErr(b)) => a.class == b.class,
+            _ => false,
+        };
+        if !same_bare {
+            return Err(crate::runner::Failure::new(
+                sub,
+                "core-expression-depends-on-the-function-registry",
+                format!("Runtime::new().compile({}) gives {} but jmespath::compile gives {}", text, via_bare.brief(), via_text.brief()),
+                serde_json::json!({"expression": text, "document": doc_json, "runtime": "Runtime::new() without any registered function"}),
+            ));
+        }
+    }
     if same {
         Ok(())
     } else {
